@@ -124,11 +124,15 @@ def fold_check(ck, u, eng, name, host_big, tag, proved):
             return octets_from_buffer(t[1]) - L(t[2]) * ptr_elem(t[1])
         raise Shape('pointer not derived from the buffer parameter: %s' % fmt(t))
 
+    KNOWN = {}
+
     def folded(t, facts):
         """K (Lin, octets) such that t == Fold(crc, buffer[0..K)), or a str saying why not"""
         t = strip_cast(t)
         if t == crc_p:
             return Lin.const(0)
+        if t in KNOWN:
+            return KNOWN[t]
         if t[0] == 'call' and t[1] in FOLD_FNS:
             if t[1] not in proved and t[1] != name:
                 return '%s is not itself a decided fold' % t[1]
@@ -164,10 +168,9 @@ def fold_check(ck, u, eng, name, host_big, tag, proved):
         return out
 
     try:
+        state = {'ngroups': 0}
         groups = {}
         for p in paths:
-            if len(p.loops) > 1:
-                raise Shape('more than one loop on a path')
             if not p.loops:
                 if p.end != 'return':
                     raise Shape('path without loop does not return')
@@ -179,24 +182,27 @@ def fold_check(ck, u, eng, name, host_big, tag, proved):
                     bad = 'path %s returns the fold over %s octets, the buffer has %s' % (p.describe(4), k, total)
                 if bad:
                     break
-                ngroups += 1
+                state['ngroups'] += 1
                 continue
             lmap = p.loops[0][1]
             gid = tuple(sorted((repr(h) for k_, (h, pre) in lmap.items())))
             groups.setdefault(gid, []).append(p)
-        for gid, ps in ([] if bad else sorted(groups.items())):
-            ngroups += 1
-            lmap = ps[0].loops[0][1]
+        def group(level, ps, known, carried, outer_heads):
+            state['ngroups'] += 1
+            nonlocal lanes_seen
+            bad = None
+            lmap = ps[0].loops[level][1]
             by_h = {h: (k_, pre) for k_, (h, pre) in lmap.items()}
-            heads = set(by_h)
-            iters = [p for p in ps if p.end == 'loopback']
-            exits = [p for p in ps if p.end == 'return']
-            if not exits or len(iters) + len(exits) != len(ps):
+            heads = set(by_h) | set(outer_heads)
+            iters = [p for p in ps if p.end == 'loopback' and len(p.loops) == level + 1]
+            exits = [p for p in ps if p.end == 'return' and len(p.loops) == level + 1]
+            cont = [p for p in ps if len(p.loops) > level + 1]
+            if not (exits or cont) or len(iters) + len(exits) + len(cont) != len(ps):
                 raise Shape('loop without exit path')
             if not iters:
                 # the loop condition can never hold on entry: the loop-carried variables keep their entry values
-                pre_conds = [c for c in ps[0].cond_terms() if not any(sym.contains(c, h) for h in heads)]
-                pf = eng.path_facts(pre_conds)
+                pre_conds = [c for c in ps[0].cond_terms() if not any(sym.contains(c, h) for h in by_h)]
+                pf = eng.path_facts(pre_conds) + carried
                 for p in exits:
                     r = strip_cast(p.ret)
                     v = by_h[r][1] if r in by_h else r
@@ -206,8 +212,10 @@ def fold_check(ck, u, eng, name, host_big, tag, proved):
                                'octets instead of the %s octets of the buffer' % (k if not isinstance(k, str) else 0, total))
                         break
                 if bad:
-                    break
-                continue
+                    return bad
+                if cont:
+                    raise Shape('a loop that never runs is followed by another loop')
+                return None
 
             def octets(t):
                 if t in heads:
@@ -227,7 +235,7 @@ def fold_check(ck, u, eng, name, host_big, tag, proved):
             cunit = None
             h_acc = None
             posts = []
-            inside = set(n.get('id') for n in cast.walk(ps[0].loops[0][0]))
+            inside = set(n.get('id') for n in cast.walk(ps[0].loops[level][0]))
             for p in iters:
                 eff = [e for e in p.effects if e.node is not None and e.node.get('id') in inside]
                 steps = [e for e in eff if e.kind == 'call' and e.name == 'crc16_octet']
@@ -239,19 +247,19 @@ def fold_check(ck, u, eng, name, host_big, tag, proved):
                     if moved:
                         bad = ('an iteration (%s) changes %s without feeding an octet to crc16_octet: octets are skipped'
                                % (p.describe(2), ', '.join(sorted(moved))))
-                        break
+                        return bad
                     continue
                 ha = strip_cast(steps[0].args[0])
                 if ha not in by_h or (h_acc is not None and ha != h_acc):
                     bad = 'first step of an iteration (%s) is seeded with %s, not with the running accumulator' % (steps[0].where(), fmt(steps[0].args[0]))
-                    break
+                    return bad
                 h_acc = ha
                 prev = h_acc
                 at = []
                 for e in steps:
                     if strip_cast(e.args[0]) != prev:
                         bad = 'step at %s is seeded with %s, not with the previous result' % (e.where(), fmt(e.args[0]))
-                        break
+                        return bad
                     prev = e.result
                     loads = set(t for t in sym.subterms(e.args[1]) if t[0] in ('i', '*'))
                     if len(loads) != 1:
@@ -270,10 +278,10 @@ def fold_check(ck, u, eng, name, host_big, tag, proved):
                             lane = byte
                     if lane is None:
                         bad = 'datum at %s is not one octet of the element it loads: %s' % (e.where(), fmt(e.args[1]))
-                        break
+                        return bad
                     at.append(octets(addr) + lane)
                 if bad:
-                    break
+                    return bad
                 facts = eng.path_facts(p)
                 if pos is None:
                     pos, cunit = at[0], len(at)
@@ -281,13 +289,13 @@ def fold_check(ck, u, eng, name, host_big, tag, proved):
                     if not same(facts, a - pos - i) or len(at) != cunit:
                         bad = ('iteration at %s feeds the octets at %s; address order from the loop position is %s'
                                % (steps[0].where(), ', '.join(str(x) for x in at), ', '.join(str(pos + k_) for k_ in range(len(at)))))
-                        break
+                        return bad
                 if bad:
-                    break
+                    return bad
                 acc_key = by_h[h_acc][0]
                 if strip_cast(p.mem.get(acc_key, h_acc)) != prev:
                     bad = 'accumulator after an iteration is %s, not the result of the last step' % fmt(p.mem.get(acc_key, h_acc))
-                    break
+                    return bad
                 post = {}
                 for h, (k_, pre) in by_h.items():
                     v = p.mem.get(k_, h)
@@ -299,34 +307,34 @@ def fold_check(ck, u, eng, name, host_big, tag, proved):
                 if not same(facts, lin_subst(pos, post) - pos - cunit):
                     bad = ('after an iteration that fed %d octet(s) the position moves from %s to %s'
                            % (cunit, pos, lin_subst(pos, post)))
-                    break
+                    return bad
                 lanes_seen = list(range(cunit))
             if bad:
-                break
+                return bad
             # ---- base: what has been folded on entry is exactly what lies before the position ----------
             pre_m = {}
             for h, (k_, pre) in by_h.items():
                 if pre is None:
                     raise Shape('loop variable %s without a pre-loop value' % fmt(k_))
                 if eng.pointer(h) or '*' in (eng.types.get(k_) or ''):
-                    pre_m[('poff', h)] = octets(pre)
+                    pre_m[('poff', h)] = octets(strip_cast(pre)) if strip_cast(pre) not in by_h else octets(pre)
                 elif h != h_acc:
                     pre_m[h] = L(pre)
-            pre_conds = [c for c in ps[0].cond_terms() if not any(sym.contains(c, h) for h in heads)]
-            pf = eng.path_facts(pre_conds)
+            pre_conds = [c for c in ps[0].cond_terms() if not any(sym.contains(c, h) for h in by_h)]
+            pf = eng.path_facts(pre_conds) + carried
             k = folded(by_h[h_acc][1], pf)
             if isinstance(k, str):
                 bad = 'at loop entry: %s' % k
-                break
+                return bad
             pos0 = lin_subst(pos, pre_m)
             if not same(pf, pos0 - k):
                 bad = ('at loop entry %s octets have been folded but the first datum is read at buffer+%s: octets are skipped or fed twice'
                        % (k, pos0))
-                break
+                return bad
             # ---- auxiliary invariants (discovered, then proved inductive): Pos + v*cunit == total for a
             #      countdown variable v, and Pos <= total -------------------------------------------------
             cands = [('%s + %d*%s == %s' % (pos, cunit, fmt(by_h[h][0]), total), pos + Lin.atom(h) * cunit - total, True)
-                     for h in sorted(heads, key=repr) if h != h_acc and ('poff', h) not in pre_m]
+                     for h in sorted(by_h, key=repr) if h != h_acc and ('poff', h) not in pre_m]
             cands.append(('%s <= %s' % (pos, total), pos - total, False))
             invs = []
             for label, g, is_eq in cands:
@@ -357,23 +365,42 @@ def fold_check(ck, u, eng, name, host_big, tag, proved):
                 if not eng.entails(facts + hyp, pos + cunit - total):
                     bad = ('an iteration reads octets [%s, %s+%d) although only %s octets belong to the buffer '
                            '(invariants available: %s)' % (pos, pos, cunit, total, '; '.join(l for l, _, _ in invs) or 'none'))
-                    break
+                    return bad
             if bad:
-                break
+                return bad
             for p in exits:
                 if strip_cast(p.ret) != h_acc:
                     bad = 'returns %s, which is not the loop accumulator' % fmt(p.ret)
-                    break
+                    return bad
                 facts = eng.path_facts(p)
                 if not same(facts + hyp, pos - total):
                     bad = ('the loop is left (%s) with %s octets folded; not provably all %s octets of the buffer '
                            '(invariants available: %s)' % (p.describe(3), pos, total, '; '.join(l for l, _, _ in invs) or 'none'))
-                    break
+                    return bad
+            # ---- paths that go on to a later loop: what this loop established is known there -----------------
+            if cont:
+                if pos is None:
+                    raise Shape('a loop without checksum steps is followed by another loop')
+                nxt = {}
+                for p in cont:
+                    lm = p.loops[level + 1][1]
+                    g2 = tuple(sorted(repr(h) for k_, (h, pre) in lm.items()))
+                    nxt.setdefault(g2, []).append(p)
+                known2 = dict(known)
+                known2[h_acc] = pos
+                KNOWN[h_acc] = pos
+                for g2, ps2 in sorted(nxt.items()):
+                    b2 = group(level + 1, ps2, known2, carried + hyp, heads)
+                    if b2:
+                        return b2
+            return None
+        for gid, ps in ([] if bad else sorted(groups.items())):
+            bad = group(0, ps, {}, [], set())
             if bad:
                 break
     except Shape as e:
         return ck.broken(rule, key, where, str(e))
-    if bad is None and ngroups < 1:
+    if bad is None and state['ngroups'] < 1:
         return ck.broken(rule, key, where, 'no path found')
     if bad is None:
         proved.add(name)
